@@ -54,7 +54,8 @@ Section Policy.
   | OPick (s : nat) (args : list arg)
   | OOmit (s : nat) (args : list arg)
   | OExtend (s : nat) (fields : list (string * nat))
-  | OMerge (s o : nat).
+  | OMerge (s o : nat)
+  | OMergeN (s : nat) (os : list nat).        (* s.Merge(o1, o2, ...): the variadic form, a left fold of pairwise merges *)
 
   (** the keys an argument list selects: strings, and map entries that are true *)
   Definition selected (args : list arg) : list string :=
@@ -109,6 +110,13 @@ Section Policy.
       let '(h1, t) := fresh (st_heap x) (read (st_heap x) (s_tests a) ++ read (st_heap x) (s_tests b)) in
       let '(h2, p) := fresh h1 (read h1 (s_pts a) ++ read h1 (s_pts b)) in
       {| st_heap := h2; st_schemas := st_schemas x ++ [{| s_fields := s_fields a ++ s_fields b; s_tests := t; s_pts := p |}] |}
+    | OMergeN i js =>
+      (* the intermediate results of the fold are unreachable afterwards: what remains is one schema
+         over fresh arrays holding everything in operand order *)
+      let parts := map (get x) (i :: js) in
+      let '(h1, t) := fresh (st_heap x) (flat_map (fun a => read (st_heap x) (s_tests a)) parts) in
+      let '(h2, p) := fresh h1 (flat_map (fun a => read h1 (s_pts a)) parts) in
+      {| st_heap := h2; st_schemas := st_schemas x ++ [{| s_fields := flat_map s_fields parts; s_tests := t; s_pts := p |}] |}
     end.
 
   Definition step := step_with clone.
@@ -135,6 +143,8 @@ Section Policy.
     | OExtend i fields => let s := pget l i in l ++ [{| p_fields := p_fields s ++ fields; p_tests := p_tests s; p_pts := p_pts s |}]
     | OMerge i j => let a := pget l i in let b := pget l j in
                     l ++ [{| p_fields := p_fields a ++ p_fields b; p_tests := p_tests a ++ p_tests b; p_pts := p_pts a ++ p_pts b |}]
+    | OMergeN i js => let parts := map (pget l) (i :: js) in
+                      l ++ [{| p_fields := flat_map p_fields parts; p_tests := flat_map p_tests parts; p_pts := flat_map p_pts parts |}]
     end.
   Definition prun (ops : list op) : list pschema := fold_left pstep ops [].
 
@@ -144,6 +154,7 @@ Section Policy.
     | ONew _ => true
     | OTest i _ | OPT i _ | OPick i _ | OOmit i _ | OExtend i _ => Nat.ltb i n
     | OMerge i j => Nat.ltb i n && Nat.ltb j n
+    | OMergeN i js => Nat.ltb i n && forallb (fun j => Nat.ltb j n) js
     end.
   Definition grows (o : op) : nat := match o with OTest _ _ | OPT _ _ => 0 | _ => 1 end.
   Fixpoint ops_ok (n : nat) (ops : list op) : bool :=
